@@ -25,11 +25,17 @@ def clean():
 def run_mutant(m, tier="quick"):
     if not clean():
         print("refusing: /repo has uncommitted changes"); sys.exit(3)
-    path = os.path.join(REPO, m["file"])
-    src = open(path).read()
-    if src.count(m["old"]) != 1:
-        print("mutant %s: pattern occurs %d times" % (m["id"], src.count(m["old"]))); return None
-    open(path, "w").write(src.replace(m["old"], m["new"]))
+    if "revert" in m:
+        # re-introduce a repaired defect: reverse-apply the fix commit to the working tree
+        p = sh("git -C %s show %s | git -C %s apply -R" % (REPO, m["revert"], REPO))
+        if p.returncode != 0:
+            print("mutant %s: cannot reverse-apply %s: %s" % (m["id"], m["revert"], p.stdout.decode()[-300:])); return None
+    else:
+        path = os.path.join(REPO, m["file"])
+        src = open(path).read()
+        if src.count(m["old"]) != 1:
+            print("mutant %s: pattern occurs %d times" % (m["id"], src.count(m["old"]))); return None
+        open(path, "w").write(src.replace(m["old"], m["new"]))
     res = {}
     try:
         for prop in m["props"]:
